@@ -570,6 +570,15 @@ func (e *Env) index(v, i Val) Val {
 
 func (e *Env) evalCall(n ECall) Val {
 	u := e.u
+	if k := strings.LastIndex(n.Fun, "."); k > 0 {
+		// pkg.pred(...): preds and spec functions live in one global name space
+		short := n.Fun[k+1:]
+		_, isPred := u.P.CS.Preds[short]
+		_, isSpec := u.P.CS.Specs[short]
+		if isPred || isSpec {
+			n.Fun = short
+		}
+	}
 	argn := func(k int) {
 		if len(n.Args) != k {
 			e.fail("%s expects %d arguments", n.Fun, k)
